@@ -250,14 +250,30 @@ def replay_writer_case(case):
         s.update(kw)
         return s
 
+    impl = []
+    try:
+        from nptdms import _verif
+        _verif.set_sink(lambda r: impl.append(r) if r.get("event") == "write_segment" else None)
+    except ImportError:
+        _verif = None
     try:
         out = run_program(rec, seed, target=target, version=version)
     except Exception as ex:  # noqa
         import traceback
+        if _verif is not None:
+            _verif.set_sink(None)
         fails.append((sig("writer-raised", exception=type(ex).__name__,
                           classes=sorted(set(rec["cls"].values()))[:3]),
                       {"prog": rec["prog"], "cls": rec["cls"], "exception": traceback.format_exc()[-1500:]}))
         return {"n": 1, "keys": [h], "fails": fails, "validated": 1}
+    if _verif is not None:
+        _verif.set_sink(None)
+    # refinement (diagnostic): the object paths each write_segment call emitted, as logged by the hook, against the
+    # specification's `emitted' segments
+    obs = {}
+    if impl:
+        spec_paths = [[o["p"] for o in seg["objs"]] for seg in rec["emitted"]]
+        obs["writer_calls_refined" if [r["paths"] for r in impl] == spec_paths else "writer_calls_not_refined"] = 1
     bundle = {"prog": rec["prog"], "cls": rec["cls"], "seed": seed, "target": target, "version": version,
               "hex": out["data"].hex()}
     try:
@@ -325,7 +341,7 @@ def replay_writer_case(case):
         have = set((cooked["props"].get(p) or {}).keys())
         if want != have:
             fails.append((sig("property-set"), dict(bundle, object=p, expected=sorted(want), observed=sorted(have))))
-    return {"n": 1 + len(chans), "keys": [h], "fails": fails, "validated": 1}
+    return {"n": 1 + len(chans), "keys": [h], "fails": fails, "validated": 1, "obs": obs}
 
 
 def trace_of(data, idx):
